@@ -59,9 +59,15 @@ def run_case(cs):
     # now and then a folder name that just fits into a manifest name (NNNN_<folder>_<18 chars>.mhl of at most 255 bytes)
     long_names = rng.random() < 0.12
     rname = "root" if not long_names or rng.random() < 0.4 else "r" * rng.randint(223, 227)
+    if not long_names and rng.random() < 0.12:
+        # the extension of the manifests inside the folder name
+        rname = rng.choice(["A001.mhl_offload", "root.mhl", "x.mhl.bak"])
+        cs.count("scenarios_with_mhl_in_folder_name")
     sroot = os.path.join(state, rname)
     root = os.path.join(work, rname)
     nested = rng.choice([[], [], ["K"], ["K", "M"], ["K", "K/L"]])
+    if rng.random() < 0.08:
+        nested = rng.choice([["K.mhl_copy"], ["K.mhl_copy", "M"]])
     if long_names and (rname == "root" or rng.random() < 0.3):
         kname = "K" * rng.randint(223, 227)
         nested = rng.choice([[kname], [kname, "M"]])
